@@ -49,6 +49,11 @@ class C06(Prop):
             if kind == "function":
                 box = itertools.product(*[range(lo, hi + 1) for lo, hi in bounds])
                 c["fp"] = [[list(k), q()] for k in box]
+                if rng.random() < 0.3:
+                    # a joint function given by a formula in exact integer arithmetic (the loader hands it the degrees themselves)
+                    b, m = rng.choice([3, 7, 10]), rng.choice([23, 41])
+                    c["fp_formula"] = [b, m]
+                    c["fp"] = [[k, rs(Fraction(sum(k) + 1, b ** (m * sum(k))))] for k, _ in c["fp"]]
             else:
                 zero = rng.random() < 0.06 and kind != "marginal_sampled"
                 c["fs"] = [[[k, "0" if zero else q()] for k in range(0, 8)] for _ in range(T)]
@@ -84,6 +89,9 @@ class C06(Prop):
         else:
             d = {tuple(key): Ex(v) for key, v in case["fp"]}
             p[JN.FP] = lambda jd: d.get(tuple(int(x) for x in jd), Ex(0))
+            if case.get("fp_formula"):
+                b, m = case["fp_formula"]
+                p[JN.FP] = lambda jd: Ex(Fraction(int(sum(jd) + 1), int(b ** (m * sum(jd)))))
             p[JN.LOW_HIGH_DEGREE_BOUND] = [tuple(b) for b in case["bounds"]]
             t = JT.JOINT_FUNCTION
         p[JN.JOINT_DEGREE_TYPE] = t.value
